@@ -289,16 +289,18 @@ def Rej.toString : Rej → String
   | .badSig => "sig" | .unknownCreator => "creator" | .selfParent => "selfparent"
   | .otherParent => "otherparent" | .index => "index" | .itxSig => "itxsig"
 
-/-- the admission checks of `InsertEvent` in source order: Verify, checkSelfParent, checkOtherParent
-    (the creator test is `LastEventFrom`'s UnknownParticipant error) -/
+/-- the admission checks of `InsertEvent` in source order: Verify, checkSelfParent, checkOtherParent,
+    checkIndex (the creator test is `LastEventFrom`'s UnknownParticipant error) -/
 def St.admission (s : St) (e : Ev) : Option Rej :=
   if !e.sigok then some .badSig else
   if !s.repertoire.contains e.creator then some .unknownCreator else
   match s.lastFrom e.creator with
   | none => if e.sp != "" then some .selfParent else
-            if e.op != "" && (s.get e.op).isNone then some .otherParent else none
+            if e.op != "" && (s.get e.op).isNone then some .otherParent else
+            if e.index != 0 then some .index else none
   | some l => if e.sp != l.id then some .selfParent else
-              if e.op != "" && (s.get e.op).isNone then some .otherParent else none
+              if e.op != "" && (s.get e.op).isNone then some .otherParent else
+              if e.index != l.index + 1 then some .index else none
 
 def St.insert (s : St) (e : Ev) : St :=
   let s2 := s.insertCoords e
@@ -310,28 +312,37 @@ def insertSorted (l : List (Int × Bool)) (x : Int × Bool) : List (Int × Bool)
   let (a, b) := l.span (fun p => p.1 ≤ x.1)
   a ++ [x] ++ b
 
+/-- `PendingRounds.Set` under the three conditions of `DivideRounds` -/
+def St.aboveLB (st : St) (r : Int) : Bool :=
+  match st.lowerBound with | none => true | some lb => decide (r > lb)
+
+def St.queueRound (st : St) (r : Int) (ri : RoundInfo) : St :=
+  if !(st.pending.any (·.1 == r)) && !ri.decided && st.aboveLB r then
+    { st with pending := insertSorted st.pending (r, false) }
+  else st
+
+/-- first half of the loop body of `DivideRounds`: round, pending queue, witness flag, RoundInfo -/
+def St.assignRound (st : St) (id : String) (ev : Ev) : St :=
+  let r := st.computeRound ev
+  let ri := (st.getRound r).getD {}
+  let st := st.queueRound r ri
+  let st := st.update id (fun e => { e with round := some r })
+  let w := st.computeWitness ev r
+  let st := st.setRound r (ri.addCreated id w)
+  st.update id (fun e => { e with wit := some w })
+
+/-- second half: the Lamport timestamp -/
+def St.assignLamport (st : St) (id : String) : St :=
+  match st.get id with
+  | none => st
+  | some ev1 => st.update id (fun e => { e with lamport := some (st.computeLamport ev1) })
+
 def divideOne (st : St) (id : String) : St :=
   match st.get id with
   | none => st
   | some ev =>
-    let st1 := match ev.round with
-      | some _ => st
-      | none =>
-        let r := st.computeRound ev
-        let ri := (st.getRound r).getD {}
-        let queued := st.pending.any (·.1 == r)
-        let above := match st.lowerBound with | none => true | some lb => decide (r > lb)
-        let st := if !queued && !ri.decided && above then { st with pending := insertSorted st.pending (r, false) } else st
-        let st := st.update id (fun e => { e with round := some r })
-        let w := st.computeWitness ev r
-        let st := st.setRound r (ri.addCreated id w)
-        st.update id (fun e => { e with wit := some w })
-    match ev.lamport with
-    | some _ => st1
-    | none =>
-      match st1.get id with
-      | none => st1
-      | some ev1 => st1.update id (fun e => { e with lamport := some (st1.computeLamport ev1) })
+    let st1 := if ev.round.isNone then st.assignRound id ev else st
+    if ev.lamport.isNone then st1.assignLamport id else st1
 
 def St.divideRounds (s : St) : St := s.undet.foldl divideOne s
 
